@@ -17,7 +17,7 @@ RULE = ('for every game of families A and B (Streett and Rabin, 4 modes): '
         'automaton: must not raise; init[impl] must fix the memory, admit '
         'only states with (EnvInit => SysInit /\\ Win) (SysInit '
         'unconditionally if plus_one) and be non-empty in the quantifier '
-        'pattern of the form. For one combination of every other game (thorough: 4 of every game) with a non-empty region but a negative verdict the construction must be refused (raise). non-trivial = some verdict of the game is '
+        'pattern of the form. For one combination of every fourth game (thorough: 4 of every game) with a non-empty region but a negative verdict the construction must be refused (raise). non-trivial = some verdict of the game is '
         'true and some false; distinct = game description')
 ASSUMPTIONS = ['dd trusted', 'reference region from arena/Zielonka',
                'library preconditions respected: SysInit=TRUE for \\A \\A, '
@@ -96,8 +96,8 @@ def run_case(case, acc):
     if case.get('refuse'):
         chosen = [tuple(_tupled(case['refuse']))]
     elif case.get('init') or not unrealizable or (
-            not case.get('deep') and hh // 7 % 2):
-        chosen = []      # quick: every other game
+            not case.get('deep') and hh // 7 % 4):
+        chosen = []      # quick: every fourth game
     else:
         k = len(unrealizable)
         chosen = [unrealizable[(hh + i * max(1, k // 4)) % k]
